@@ -20,6 +20,7 @@ RULE = (
 )
 ASSUMPTIONS = [
     "tolerances: 1e-9 relative to max|range| scaled by the extrapolation factor (float64 gives ~1e-15); invert additionally scaled by max|r|/|r1-r0|",
+    "clamped outputs may leave the range by up to 4 ulps of its larger end: r0*(1-t)+r1*t is not monotone to the last bit (domain [0.3, 0.6], range [-6, -7], x = 0.30000000000000004 gives -5.999999999999999)",
     "histories pass fresh lists to domain()/range(): sharing a caller-supplied list is outside the property",
     "history domains have span >= 1e-6 of the end points' magnitude (the regime in which C13/C14 specify nice(); a span of one ulp is collapsed by nice() through float resolution alone)",
 ]
@@ -131,7 +132,9 @@ def check_map(spec, ctx):
     lo, hi = min(r0, r1), max(r0, r1)
     for q in (x, x2):
         yc = lib_call(sc, q)
-        if not (lo <= yc <= hi):
+        ulps = 4 * math.ulp(max(abs(lo), abs(hi), 1e-300))
+        if not (lo - ulps <= yc <= hi + ulps):
+            # (r0*(1-t) + r1*t is not monotone to the last bit: for t = 2e-16 it can land one ulp outside [r0, r1])
             raise Violation("clamp-leaves-range", "clamped s(%r) = %r outside [%r, %r]" % (q, yc, lo, hi))
         t = (F(q) - F(a)) / (F(b) - F(a))
         if 0 <= t <= 1 and abs(yc - ys[q]) > 1e-12 * max(1.0, rmax):
